@@ -107,7 +107,7 @@ Print Assumptions C12_fun2core_main_result_refuted.
      tg   the annotated body is well typed at its own annotations, every type compared after compile_ty, every
           signature looked up in the COMPILED declarations (operands i64; branches / let body / case clauses at
           the type of the term; arguments follow the callee / the xtor; clauses follow the xtors of the type in
-          declaration order with pairwise distinct parameters; the type of every variable occurrence, let variable,
+          declaration order with pairwise distinct parameters; the type of every let variable, goto target,
           label, argument position and definition parameter is declared) - ALL term forms: data and codata, `new`,
           destructors, labels/goto, consumer arguments;
      NOT shadowing_risk   the syntactic detector of the known finding capture-under-binder (the one modelrun uses):
